@@ -424,6 +424,8 @@ def getitem(I, base, key):
     key = _val(key) if not isinstance(key, slice) else key
     if isinstance(base, _SliceMaker):
         return key
+    if isinstance(base, Opaque):
+        return Opaque(f"{base.what}[...]")     # part of an uninspected value
     if isinstance(base, OptVal):
         I.oblige(f"not_None@{I.cur_line}", base.present, "safety")
         base = base.value
@@ -562,22 +564,15 @@ def struct_take(I, s, idx):
     return SymStruct(idx.length, {f: mk(q) for f, q in s.fields.items()})
 
 
-def mask_select(I, s, mask):
-    """a[mask]: R[i] = a[src(i)] with src strictly increasing over exactly
-    the True positions; dst is the inverse map on True positions.  The
-    length is COUNT(mask); for the pattern arange(n)[~isin(arange(n), b)]
-    with b strictly increasing inside [0, n) the count is n - len(b)
-    (library-level counting fact, conformance-tested)."""
-    I.oblige(f"mask_len@{I.cur_line}",
-             to_int(mask.length) == to_int(s.length), "safety")
-    n = to_int(s.length)
+def mask_maps(I, mask):
+    """selection maps of a boolean mask (one per mask object): src strictly
+    increasing over exactly the True positions, dst its inverse, cnt the
+    number of True entries"""
+    n = to_int(mask.length)
     nm = I.namer.fresh
-    # the selection maps are a function of the mask only: arrays selected by
-    # the same mask object share them (x[m], y[m] stay aligned)
     mcache = I.ghost.setdefault("mask_cache", {})
     if id(mask) in mcache:
-        src, dst, cnt = mcache[id(mask)][:3]
-        return SymSeq(cnt, lambda q: s.get(src(to_int(q))), s.elem)
+        return mcache[id(mask)][:3]
     cnt = I.fresh_const("mask_count", z3.IntSort())
     src = z3.Function(nm("mask_src"), z3.IntSort(), z3.IntSort())
     dst = z3.Function(nm("mask_dst"), z3.IntSort(), z3.IntSort())
@@ -598,13 +593,26 @@ def mask_select(I, s, mask):
     if tag is not None:
         b = tag["b"]
         # counting fact, under its side conditions
-        k = z3.Int(nm("q_k"))
         side = z3.And(
             sorted_seq(I, b, strict=True),
             forall_idx(I, b.length, lambda q: z3.And(0 <= b.get(q),
                                                      b.get(q) < n)),
             forall_idx(I, n, lambda q: tag["a"].get(q) == q))
         I.assume(z3.Implies(side, cnt == n - to_int(b.length)))
+    return src, dst, cnt
+
+
+def mask_select(I, s, mask):
+    """a[mask]: R[i] = a[src(i)] with src strictly increasing over exactly
+    the True positions; dst is the inverse map on True positions.  The
+    length is COUNT(mask) (also what mask.sum() returns); for the pattern
+    arange(n)[~isin(arange(n), b)] with b strictly increasing inside [0, n)
+    the count is n - len(b) (library-level counting fact, conformance-
+    tested).  Arrays selected by the same mask object share the maps (x[m],
+    y[m] stay aligned)."""
+    I.oblige(f"mask_len@{I.cur_line}",
+             to_int(mask.length) == to_int(s.length), "safety")
+    src, dst, cnt = mask_maps(I, mask)
     return SymSeq(cnt, lambda q: s.get(src(to_int(q))), s.elem)
 
 
@@ -1943,12 +1951,18 @@ def seq_sum(I, x):
 
 @method("seq", "sum")
 def _seq_sum_m(I, b, **kw):
-    return seq_sum(I, _val(b))
+    v = _val(b)
+    if v.elem == "Bool" and not kw:
+        return mask_maps(I, v)[2]          # number of True entries
+    return seq_sum(I, v)
 
 
 @lib("numpy.sum")
 def _np_sum(I, x, **kw):
-    return seq_sum(I, as_seq(I, x))
+    v = as_seq(I, x)
+    if v.elem == "Bool" and not kw:
+        return mask_maps(I, v)[2]
+    return seq_sum(I, v)
 
 
 @lib("os.path.join")
@@ -3890,3 +3904,10 @@ def _distinct(I, s):
     n = to_int(s.length)
     return z3.ForAll([i, j], z3.Implies(
         z3.And(0 <= i, i < j, j < n), s.get(i) != s.get(j)))
+
+
+@lib("spec.count")
+def _spec_count(I, mask):
+    """number of True entries of a boolean array (the length of a[mask])"""
+    v = _val(mask)
+    return mask_maps(I, v)[2]
